@@ -6,7 +6,8 @@
 //!   L <hex>                                   LossyUtf8 on a byte string (+ String::from_utf8_lossy)
 //!   R <crh|-> <srchex|-> <events>             HtmlRenderer on a synthetic event stream
 //!   H <root> <variant> <names> <crh|-> <hex>  Highlighter::highlight (+ HtmlRenderer) on a document;
-//!                                             root ∈ stmt|tmpl|host, variant ∈ 0|1 (injection queries),
+//!                                             root ∈ stmt|tmpl|host, variant ∈ 0|1|2 (injection queries; 2 = tmpl code with
+//!                                             holes excluded + stmt strings re-injected as tmpl),
 //!                                             names = all | none | generic | sub<seed>
 //!   M <lang> <names> <hex>                    single-layer highlight (highlights query only) + the layer's
 //!                                             capture list through the public query API, for the merge model
@@ -56,7 +57,7 @@ struct LangDef {
     language: Language,
     highlights: String,
     locals: String,
-    inj: [String; 2],
+    inj: [String; 3],
 }
 
 fn load_langs() -> Vec<LangDef> {
@@ -65,9 +66,9 @@ fn load_langs() -> Vec<LangDef> {
     let tmpl = zoo::load("tmpl").expect("zoo tmpl");
     let host = zoo::load("host").expect("zoo host");
     vec![
-        LangDef { language: stmt.language, highlights: STMT_HL.into(), locals: STMT_LOCALS.into(), inj: [String::new(), STMT_INJ_B.into()] },
-        LangDef { language: tmpl.language, highlights: q("tmpl", "highlights.scm"), locals: String::new(), inj: [q("tmpl", "injections.scm"), q("tmpl", "injections_b.scm")] },
-        LangDef { language: host.language, highlights: q("host", "highlights.scm"), locals: q("host", "locals.scm"), inj: [q("host", "injections.scm"), q("host", "injections.scm")] },
+        LangDef { language: stmt.language, highlights: STMT_HL.into(), locals: STMT_LOCALS.into(), inj: [String::new(), STMT_INJ_B.into(), STMT_INJ_B.into()] },
+        LangDef { language: tmpl.language, highlights: q("tmpl", "highlights.scm"), locals: String::new(), inj: [q("tmpl", "injections.scm"), q("tmpl", "injections_b.scm"), q("tmpl", "injections.scm")] },
+        LangDef { language: host.language, highlights: q("host", "highlights.scm"), locals: q("host", "locals.scm"), inj: [q("host", "injections.scm"), q("host", "injections.scm"), q("host", "injections.scm")] },
     ]
 }
 
@@ -757,6 +758,70 @@ fn emit_multi(w: &mut World, out: &mut impl Write, id: &str, root: usize, varian
 
 // ---------------------------------------------------------------------------------------------
 // generators
+/// Long inputs: `prefix` ASCII filler bytes, then `mid`, then a short tail.  The filler has no
+/// newline/CR/escaped characters so that the position of `mid` is the only thing that varies.
+fn long_bytes(prefix: usize, mid: &[u8], tail: &[u8]) -> Vec<u8> {
+    let mut v = Vec::with_capacity(prefix + mid.len() + tail.len());
+    for i in 0..prefix {
+        v.push(b"abcdefghijklmnopqrstuvwxyz_0123456789"[i % 37]);
+    }
+    v.extend_from_slice(mid);
+    v.extend_from_slice(tail);
+    v
+}
+
+const MB_CHARS: [&[u8]; 3] = ["é".as_bytes(), "€".as_bytes(), "😀".as_bytes()];
+
+/// Offsets at which a multi-byte character is placed in long inputs: around every power of two
+/// from 1 KiB to 64 KiB (and some odd multiples of 1 KiB) by a few bytes either side, plus a
+/// thinned-out sweep of all residues mod 1024.
+fn long_offsets(rng: &mut Rng, thorough: bool) -> Vec<usize> {
+    let mut v = Vec::new();
+    let bases: &[usize] = if thorough { &[512, 1024, 2048, 3072, 4096, 5120, 8192, 16384, 32768, 65536] } else { &[1024, 2048, 3072, 4096, 8192, 65536] };
+    for &b in bases {
+        for d in 0..=5usize {
+            v.push(b - d);
+        }
+        v.push(b + 1);
+        v.push(b + 2);
+    }
+    let step = if thorough { 7 } else { 41 };
+    let start = rng.below(step);
+    for k in [1usize, 2, 5] {
+        let mut r = start;
+        while r < 1024 {
+            v.push(k * 1024 + r);
+            r += step;
+        }
+    }
+    v
+}
+
+/// Random long byte string: valid multi-byte characters, ASCII runs, invalid and truncated sequences.
+fn long_random(rng: &mut Rng, target: usize) -> Vec<u8> {
+    let mut v = Vec::with_capacity(target + 8);
+    let dirty = rng.chance(1, 2);
+    while v.len() < target {
+        match rng.below(10) {
+            0..=4 => {
+                for _ in 0..rng.range(1, 200) {
+                    v.push(b"abcdefghij klmnop"[rng.below(17)]);
+                }
+            }
+            5 | 6 => {
+                for _ in 0..rng.range(1, 40) {
+                    v.extend_from_slice(MB_CHARS[rng.below(3)]);
+                }
+            }
+            7 => v.extend_from_slice(MB_CHARS[rng.below(3)]),
+            8 if dirty => v.extend(spice(rng)),
+            _ => v.push(b'y'),
+        }
+    }
+    v
+}
+
+
 
 const WORDS: [&str; 10] = ["a", "b", "foo", "x", "count", "tmp", "y", "n", "val", "k"];
 
@@ -854,7 +919,15 @@ fn gen_tmpl(gg: &gen::GrammarGen, rng: &mut Rng, depth: usize) -> String {
                     s.push_str(*rng.pick(&[" ", "\n", " < ", " & ", ", "]));
                 }
             }
-            2 if depth > 0 => s.push_str(&gen_host(gg, rng, depth - 1)),
+            2 if depth > 0 => {
+                if rng.chance(1, 3) {
+                    // a host embed whose raw content continues after a directive: in the combined host
+                    // layer (variant 1) the `raw` node spans the gap between two text chunks
+                    s.push_str(&format!("$stmt`{} = {}; <% {} %> {} = {};` ", rng.pick(&WORDS), rng.below(9), rng.pick(&WORDS), rng.pick(&WORDS), rng.below(9)));
+                } else {
+                    s.push_str(&gen_host(gg, rng, depth - 1))
+                }
+            }
             3 => s.push_str(&format!("<%= {} + [[{}]] %>", rng.pick(&WORDS), rng.pick(&WORDS))),
             4 => {
                 if rng.chance(1, 2) {
@@ -864,7 +937,14 @@ fn gen_tmpl(gg: &gen::GrammarGen, rng: &mut Rng, depth: usize) -> String {
                     s.push_str(&format!("<%[[{}]]%>", rng.pick(&WORDS)))
                 }
             }
-            5 => s.push_str(&format!("<% {} [[{}]] {} %>", gen_stmt_locals(rng, 0), rng.pick(&WORDS), gen_stmt_locals(rng, 0))),
+            5 => {
+                if rng.chance(1, 3) {
+                    // a string that spans a hole: in the stmt layer (holes excluded) the string node spans a gap
+                    s.push_str(&format!("<% {} = 'a {} [[{}]] <%= {} b'; %>", rng.pick(&WORDS), rng.pick(&WORDS), rng.pick(&WORDS), rng.pick(&WORDS)))
+                } else {
+                    s.push_str(&format!("<% {} [[{}]] {} %>", gen_stmt_locals(rng, 0), rng.pick(&WORDS), gen_stmt_locals(rng, 0)))
+                }
+            }
             _ => s.push_str(&format!("<% {} %>", String::from_utf8_lossy(&gen_stmt(gg, rng, 8)))),
         }
     }
@@ -1075,7 +1155,7 @@ fn main() {
     let mut with_inj = 0usize;
     for i in 0..nh {
         let root = i % 3;
-        let variant = (i / 3) % 2;
+        let variant = (i / 3) % 3;
         let doc: Vec<u8> = match root {
             0 => {
                 if rng.chance(1, 2) {
@@ -1108,6 +1188,72 @@ fn main() {
         }
         n += 1;
     }
+    // 4b. LONG inputs (spans of 1 KiB … 64 KiB): LossyUtf8 directly, HtmlRenderer on one long Source
+    // span (plain / inside highlights / split), and real highlighting of documents with one long token
+    let offs = long_offsets(&mut rng, thorough);
+    let mut nlong = 0usize;
+    for (i, &p) in offs.iter().enumerate() {
+        let ch = MB_CHARS[i % 3];
+        let tail: &[u8] = [&b""[..], b"z", b" tail", "é".as_bytes()][(i / 3) % 4];
+        let b = long_bytes(p, ch, tail);
+        emit_lossy(&mut out, &format!("LL{i}"), &b);
+        nlong += 1;
+        // the same bytes through the renderer: every 2nd as one plain span, the others inside highlights / split
+        let n_b = b.len();
+        let evs = match i % 4 {
+            0 => vec![HighlightEvent::Source { start: 0, end: n_b }],
+            1 => vec![HighlightEvent::HighlightStart(Highlight(3)), HighlightEvent::Source { start: 0, end: n_b }, HighlightEvent::HighlightEnd],
+            2 => {
+                // a short span first, so that the long span does not start at offset 0
+                let k = 1 + rng.below(7.min(n_b - 1));
+                vec![HighlightEvent::Source { start: 0, end: k }, HighlightEvent::HighlightStart(Highlight(1)), HighlightEvent::HighlightStart(Highlight(2)), HighlightEvent::Source { start: k, end: n_b }, HighlightEvent::HighlightEnd, HighlightEvent::HighlightEnd]
+            }
+            _ => continue,
+        };
+        emit_render(&mut out, &format!("RL{i}"), if i % 8 == 1 { Some(5) } else { None }, &b, &evs);
+        nlong += 1;
+    }
+    for i in 0..(if thorough { 200 } else { 40 }) {
+        let target = [1500usize, 3000, 5000, 9000][i % 4] + rng.below(300);
+        let mut b = long_random(&mut rng, target);
+        if i % 5 == 0 {
+            // a few line breaks and escapes as well
+            for _ in 0..6 {
+                let p = rng.below(b.len());
+                b.splice(p..p, b"\r\n<&>".iter().copied());
+            }
+        }
+        emit_lossy(&mut out, &format!("LR{i}"), &b);
+        let n_b = b.len();
+        let cut = rng.below(n_b + 1);
+        let evs = if i % 2 == 0 {
+            vec![HighlightEvent::HighlightStart(Highlight(0)), HighlightEvent::Source { start: 0, end: n_b }, HighlightEvent::HighlightEnd]
+        } else if cut > 0 && cut < n_b {
+            vec![HighlightEvent::Source { start: 0, end: cut }, HighlightEvent::HighlightStart(Highlight(4)), HighlightEvent::Source { start: cut, end: n_b }, HighlightEvent::HighlightEnd]
+        } else {
+            vec![HighlightEvent::Source { start: 0, end: n_b }]
+        };
+        emit_render(&mut out, &format!("RR{i}"), None, &b, &evs);
+        nlong += 2;
+    }
+    // real highlighting: one long token (comment / string in stmt, text chunk in tmpl, comment / raw in host)
+    let hoffs: Vec<usize> = offs.iter().copied().filter(|&p| p <= 8300).collect();
+    let nhl = if thorough { hoffs.len() } else { hoffs.len().min(90) };
+    for i in 0..nhl {
+        let p = hoffs[(i * 7) % hoffs.len()];
+        let ch = MB_CHARS[i % 3];
+        let body = long_bytes(p, ch, b"z");
+        let (root, doc): (usize, Vec<u8>) = match i % 5 {
+            0 => (0, [&b"x = 1; // "[..], &body, b"\nreturn x;\n"].concat()),
+            1 => (0, [&b"foo('"[..], &body, b"');\n"].concat()),
+            2 => (1, [&body[..], b"<%= a %> t"].concat()),
+            3 => (2, [&b"let k = 3 # "[..], &body, b"\nk\n"].concat()),
+            _ => (2, [&b"$stmt`// "[..], &body, b"\nx = 1;` k"].concat()),
+        };
+        emit_highlight(&mut w, &mut out, &format!("HL{i}"), root, i % 3, "all", None, &doc);
+        nlong += 1;
+    }
+    n += nlong;
     // 5. single-layer merge: real events vs the capture list of the layer
     let nm = if thorough { 3000 } else { 300 };
     for i in 0..nm {
@@ -1145,7 +1291,7 @@ fn main() {
     let mut multi = 0usize;
     for i in 0..nn {
         let root = i % 3;
-        let variant = (i / 3) % 2;
+        let variant = (i / 3) % 3;
         let doc: Vec<u8> = match root {
             0 => {
                 if rng.chance(1, 2) {
@@ -1177,5 +1323,5 @@ fn main() {
         n += 1;
     }
     out.flush().unwrap();
-    eprintln!("c17: wrote {n} cases ({li} lossy, {nr} render, {nh} highlight of which {with_inj} with injections, {nm} single-layer merge, {nn} multi-layer merge of which {multi} with >1 layer) to {out_path}");
+    eprintln!("c17: wrote {n} cases ({li} lossy, {nr} render, {nh} highlight of which {with_inj} with injections, {nm} single-layer merge, {nn} multi-layer merge of which {multi} with >1 layer, {nlong} long-input cases) to {out_path}");
 }
